@@ -237,21 +237,43 @@ func wrapIntIntMap(m *hmap.IntIntMap) *inst {
 			return wrapIntIntMap(hmap.NewIntIntMapDefault().ToObject(gio.NewDataInputX(b)))
 		},
 		toObjectBytes: func(b []byte) { m.ToObject(gio.NewDataInputX(b)) },
-		keyArrayWrite: func() string {
-			ks, vs := m.KeyArray(), m.ValueArray()
-			var toks []string
-			for _, k := range ks {
-				toks = append(toks, i32Tok(k))
+		raw:           m,
+	}
+	var keptK, keptV []int32 // results the caller kept unmodified: they must still hold their contents at the next call
+	var keptKT, keptVT string
+	kaCalls := 0
+	toks32 := func(xs []int32) string {
+		var ts []string
+		for _, x := range xs {
+			ts = append(ts, i32Tok(x))
+		}
+		return strings.Join(ts, ",")
+	}
+	it.keyArrayWrite = func() string {
+		note := ""
+		if keptK != nil {
+			if toks32(keptK) != keptKT || toks32(keptV) != keptVT {
+				note = "!kept-KeyArray/ValueArray-result-changed"
 			}
+			keptK, keptV = nil, nil
+		}
+		ks, vs := m.KeyArray(), m.ValueArray()
+		var toks []string
+		for _, k := range ks {
+			toks = append(toks, i32Tok(k))
+		}
+		kaCalls++
+		if kaCalls%2 == 1 && len(ks) > 0 {
+			keptK, keptV, keptKT, keptVT = ks, vs, toks32(ks), toks32(vs)
+		} else {
 			for i := range ks {
 				ks[i] = 0x5a5a5a5a
 			}
 			for i := range vs {
 				vs[i] = -7
 			}
-			return sortedToks(toks, true)
-		},
-		raw: m,
+		}
+		return sortedToks(toks, true) + note
 	}
 	var enE hmap.Enumeration
 	var enK hmap.IntEnumer
@@ -368,16 +390,38 @@ func newIntKeyMap(c ctor) *inst {
 	}
 	it.raw = m
 	it.putAllFrom = func(src *inst) { m.PutAll(src.raw.(*hmap.IntKeyMap)) }
+	var keptK []int32
+	var keptKT string
+	kaCalls := 0
 	it.keyArrayWrite = func() string {
+		note := ""
+		toks32 := func(xs []int32) string {
+			var ts []string
+			for _, x := range xs {
+				ts = append(ts, i32Tok(x))
+			}
+			return strings.Join(ts, ",")
+		}
+		if keptK != nil {
+			if toks32(keptK) != keptKT {
+				note = "!kept-KeyArray-result-changed"
+			}
+			keptK = nil
+		}
 		ks := m.KeyArray()
 		var toks []string
 		for _, k := range ks {
 			toks = append(toks, i32Tok(k))
 		}
-		for i := range ks {
-			ks[i] = 0x5a5a5a5a
+		kaCalls++
+		if kaCalls%2 == 1 && len(ks) > 0 {
+			keptK, keptKT = ks, toks32(ks)
+		} else {
+			for i := range ks {
+				ks[i] = 0x5a5a5a5a
+			}
 		}
-		return sortedToks(toks, true)
+		return sortedToks(toks, true) + note
 	}
 	var enE hmap.Enumeration
 	var enK hmap.IntEnumer
@@ -1847,10 +1891,11 @@ func shrink(env *vh.Env, h *histRes, v *verdict, budget int) (*histRes, *verdict
 		return h, v
 	}
 	n := 2
-	for len(cur) >= 2 && budget > 0 {
+	deadline := time.Now().Add(20 * time.Second) // candidates that hang cost a watchdog period each
+	for len(cur) >= 2 && budget > 0 && time.Now().Before(deadline) {
 		chunk := (len(cur) + n - 1) / n
 		reduced := false
-		for i := 0; i < len(cur) && budget > 0; i += chunk {
+		for i := 0; i < len(cur) && budget > 0 && time.Now().Before(deadline); i += chunk {
 			j := i + chunk
 			if j > len(cur) {
 				j = len(cur)
